@@ -281,6 +281,14 @@ theorem k_exclusion (g : G) (as : List Action) (o : ObjId) (v : Nat) (ho : o < g
         cases a with
         | start t op => simp only [exec]; rw [start_log]; exact ⟨Nat.le_refl _, Nat.le_refl _⟩
         | kill p => exact ⟨Nat.le_refl _, Nat.le_refl _⟩
+        | fail t e =>
+          simp only [exec]
+          cases hc : g.calls t with
+          | none => rw [fail_none g t e hc]; exact ⟨Nat.le_refl _, Nat.le_refl _⟩
+          | some c =>
+            rw [fail_log g t e c hc]
+            simp only [acquired, released, List.filter_cons]
+            constructor <;> split <;> simp
         | step t i =>
           simp only [exec]
           cases hc : g.calls t with
